@@ -75,13 +75,11 @@ def is_rest_empty_test(cond, rests):
 
 
 def under_rest_test(fn, target, rests):
-    """Is node `target` inside the then-branch of an `if rest.is_empty()`?"""
-    for n in walk(fn["body"]):
-        if n.get("k") == "If" and is_rest_empty_test(n["cond"], rests):
-            for m in walk(n["then"]):
-                if m is target:
-                    return True
-    return False
+    """Is node `target` only evaluated when the rest is empty?  (branch of an `if` that implies it, or behind a guard clause;
+    restlogic.py)"""
+    import restlogic
+    base = lambda c: c.get("k") == "MethodCall" and c["m"] == "is_empty" and root_local(c["recv"]) in rests
+    return restlogic.guarded(fn["body"], target, base) is not None
 
 
 def check_fn_ok(facts, f):
@@ -140,6 +138,33 @@ def templates_of(fn_body, macs=("write", "writeln", "format")):
             if m and n["snip"] not in [x[1] for x in out]:
                 out.append((m.group(1).replace('\\"', '"').replace("\\n", "\n"), n["snip"], n.get("ln")))
     out.sort(key=lambda x: x[2] or 0)
+    return out
+
+
+def printer_templates(facts, fn, depth=0, seen=None):
+    """The write!/writeln! templates of a Display implementation in evaluation order, with the templates of the helpers of
+    this workspace that are handed the formatter spliced in where they are called (`self.fmt_tag_name(f)?`)."""
+    import guards
+    seen = seen if seen is not None else set()
+    out = []
+    for n, _ in guards.ordered(fn["body"]):
+        if n.get("k") not in ("Call", "MethodCall"):
+            continue
+        if n.get("mac", "").rstrip("!") in ("write", "writeln") and n.get("snip"):
+            m = re.search(r'"((?:[^"\\]|\\.)*)"', n["snip"])
+            if m and n["snip"] not in [x[1] for x in out]:
+                out.append((m.group(1).replace('\\"', '"').replace("\\n", "\n"), n["snip"], n.get("ln")))
+            continue
+        if n.get("mac"):
+            continue
+        t = n if n.get("k") == "MethodCall" else n.get("f", {})
+        g = facts.fns.get(t.get("rid") or t.get("id"))
+        if g is not None and "body" in g and g["id"] not in seen and depth < 3 and g["id"] != fn["id"] \
+                and "Formatter" in str(g.get("sig", "")) and "as std::fmt::" not in g["path"]:
+            seen.add(g["id"])
+            for x in printer_templates(facts, g, depth + 1, seen):
+                if x[1] not in [y[1] for y in out]:
+                    out.append(x)
     return out
 
 
@@ -322,7 +347,7 @@ def run(facts, tier):
                         disp = facts.fn_opt("xml_info::<%s as std::fmt::Display>::fmt" % ty)
                         if tmpl and disp:
                             st2["instances"] += 1
-                            parts = [t[0] for t in templates_of(disp["body"], macs=("write", "writeln"))]
+                            parts = [t[0] for t in printer_templates(facts, disp)]
                             ok2 = subset_concat(tmpl[0][0], parts)
                             res.oblige(1, ok2)
                             if not ok2:
@@ -375,7 +400,7 @@ def run(facts, tier):
         disp = facts.fn_opt("xml_info::<%s as std::fmt::Display>::fmt" % ty)
         if tmpl and disp:
             st2["instances"] += 1
-            parts = [t[0] for t in templates_of(disp["body"], macs=("write", "writeln"))]
+            parts = [t[0] for t in printer_templates(facts, disp)]
             ok2 = subset_concat(tmpl[0][0], parts)
             res.oblige(1, ok2)
             if not ok2:
